@@ -179,6 +179,29 @@ def closed_form(case):
         if not e <= 1e-9:
             viol.append({"what": "analytic_mode_differs_from_closed_form", "field": name, "rel": e, "footprint": fp, "levels": lv, "bg": bg,
                          "setup": desc})
+    # ... and in physical space, the components on the cut-off itself included: the retained set of an even count m along an axis of n > m
+    # cells is the index range -m/2 .. m/2 - 1 (m of them; the lowest one has no partner), each with its own closed-form response; what
+    # comes out is the real part of their sum.  (The Fourier-space clause above leaves the cut-off row / column and the grid's Nyquist
+    # out; a synthesis that assumes a Hermitian spectrum, or a response computed for +m/2 instead of -m/2, shows only here.)
+    mxe, mye = (nx, ny) if (mx > nx or my > ny) else (mx, my)
+    if (mxe == nx or mxe % 2 == 0) and (mye == ny or mye % 2 == 0):
+        ixf, iyf = np.fft.fftfreq(nx, 1.0 / nx), np.fft.fftfreq(ny, 1.0 / ny)
+        kpx = np.ones(nx, bool) if mxe == nx else ((ixf >= -mxe / 2) & (ixf <= mxe / 2 - 1))
+        kpy = np.ones(ny, bool) if mye == ny else ((iyf >= -mye / 2) & (iyf <= mye / 2 - 1))
+        keep = kpy[:, None] & kpx[None, :]
+        with np.errstate(all="ignore"):
+            Pk, Qk = np.where(keep[None], np.nan_to_num(P), 0.0), np.where(keep[None], np.nan_to_num(Q), 0.0)
+        Ec, Ef = np.fft.ifft2(Pk, norm="forward").real, np.fft.ifft2(Qk, norm="forward").real
+        if fp:   # tower at cell (0, 0): point reflection about it
+            Jr, Ir = (-np.arange(ny)) % ny, (-np.arange(nx)) % nx
+            Ec, Ef = Ec[:, Jr][:, :, Ir], Ef[:, Jr][:, :, Ir]
+        ampf = float(np.max(np.abs(q0))) if not fp else 1.0
+        for name, A, B, fl_ in (("flx", f, Ef, ampf), ("conc", c, Ec, ampf * float(z[-1] - z[0]) / Kz_ + abs(bg))):
+            e = float(np.max(np.abs(A - B))) / max(float(np.max(np.abs(B))), fl_, 1e-300)
+            resid[f"closed_form_physical_{name}"] = e
+            if not e <= 1e-9:
+                viol.append({"what": "analytic_mode_differs_from_closed_form", "space": "physical (cut-off components included)", "field": name, "rel": e,
+                             "footprint": fp, "levels": lv, "bg": bg, "setup": desc})
     # outside the cut-off nothing may be left
     IX, IY = np.meshgrid(np.fft.fftfreq(nx, 1.0 / nx), np.fft.fftfreq(ny, 1.0 / ny))
     cx, cy = (mx, my) if (mx <= nx and my <= ny) else (nx, ny)
